@@ -190,6 +190,13 @@ pub fn run(run: &mut Run) {
         base_stats.evaluations += 1;
         match chk.verdict {
             c01::Verdict::Ok { .. } => base_stats.outcome("template:behaves-as-the-model-binds"),
+            c01::Verdict::Skip(why) if why == "rejected-by-compiler" => {
+                // every use of the template is bound by the scope model, so a rejection is the compiler's doing
+                let mut files = serde_json::Map::new();
+                files.insert(MAIN.to_string(), json!(chk.text));
+                base_stats.outcome("template:REJECTED");
+                base_stats.fail(Failure { sig: "in-scope-use-rejected".into(), preds: vec![format!("template:{}", tname)], detail: format!("template {} (no renaming) is rejected although every use in it is bound lexically\n{}\n{}", tname, chk.text, compile_src(&chk.text).short()), case: json!({"engine": "c09-plant", "files": files, "expect_accept": true}), size: chk.text.len() });
+            }
             c01::Verdict::Skip(why) => {
                 eprintln!("MACHINERY: C09 template {} is not decided by the reference: {}", tname, why);
                 std::process::exit(2);
@@ -295,9 +302,10 @@ pub fn run(run: &mut Run) {
         let base_text = print_program(base).text;
         let base_lua = match compile_src(&base_text) {
             Outcome::Ok(b) => b,
-            other => {
-                eprintln!("MACHINERY: C09 template {} does not compile: {}", tname, other.short());
-                std::process::exit(2);
+            _ => {
+                // reported once by the template control above; its renamings cannot be judged
+                acc.count("renaming-skipped:template-rejected", 1);
+                return;
             }
         };
         // binder subset[j] gets the original name of binder subset[map[j]]
